@@ -51,6 +51,8 @@ def nontrivial(case):
 def replay_case(ctx, case):
     if 'prog' in case:
         return revchecks.direction_adjoint_fails(case)
+    if case.get('rev'):
+        return revchecks.op_direction_adjoint_fails(case)
     if 'fn' in case:
         return c01.run_case(ctx, case)
     return direction_fails(case)
@@ -86,6 +88,22 @@ def run(ctx):
         f = revchecks.direction_adjoint_fails(case)
         if f:
             ctx.report(case, 'failure', f)
+    # reverse sweep of single operations (every direction has its own base point and, for det/logdet/lu, its own pivots)
+    for name in revchecks.reversible_ops():
+        for k in range(3 if ctx.tier == 'quick' else 40):
+            case = ops.gen_case(ctx.rng, ctx.tier, name, P=ctx.rng.choice([2, 3]), D=ctx.rng.randint(1, 4))
+            case['seed'] = ctx.rng.randrange(1 << 30)
+            case['rev'] = True
+            ctx.evaluations += 1
+            ctx.count('reverse-op')
+            h = canon_hash(to_jsonable(case))
+            if h not in ctx.hashes:
+                ctx.hashes.add(h)
+                if nontrivial(case):
+                    ctx.nontrivial += 1
+            f = revchecks.op_direction_adjoint_fails(case)
+            if f:
+                ctx.report(case, 'failure', f)
     # tie of the modelled kernels: model on P directions and on each direction alone
     m = 80 if ctx.tier == 'quick' else 800
     for i in range(m):
